@@ -194,12 +194,12 @@ func (p *SymPtr) vs() string { return "&" + p.Base }
 
 // DecV: math.Dec value.
 type DecV struct {
-	L      Lin
-	NonNeg bool   // proven ≥ 0 on this path (constructor, SafeSub success, sum of such)
-	Pos    bool   // proven > 0
-	Fixed  string // canonical precision term p with NumDecimalPlaces ≤ p proven ("" = none, "*" = exact integer/constant)
-	Pow10  string // non-empty: this value is exactly 10^Pow10 (NewDecFinite(1, p))
-	Inexact bool  // passed through a rounding operation
+	L       Lin
+	NonNeg  bool   // proven ≥ 0 on this path (constructor, SafeSub success, sum of such)
+	Pos     bool   // proven > 0
+	Fixed   string // canonical precision term p with NumDecimalPlaces ≤ p proven ("" = none, "*" = exact integer/constant)
+	Pow10   string // non-empty: this value is exactly 10^Pow10 (NewDecFinite(1, p))
+	Inexact bool   // passed through a rounding operation
 }
 
 func (d *DecV) vs() string { return "dec(" + d.L.String() + ")" }
@@ -211,8 +211,9 @@ func (d *DecStr) vs() string { return "str(" + d.D.L.String() + ")" }
 
 // IntV: sdk.Int / *big.Int value as a linear form.
 type IntV struct {
-	L      Lin
-	NonNeg bool
+	L       Lin
+	NonNeg  bool
+	Inexact bool // derived from a decimal that passed through a rounding operation
 }
 
 func (i *IntV) vs() string { return "int(" + i.L.String() + ")" }
@@ -369,9 +370,9 @@ type Event struct {
 	Kind   string // read | write | bank | emit | call | loopenter
 	Table  *Table
 	Method string
-	OpKind string // insert|update|save|delete|deleterange|get|has|list
-	Keys   []Val  // key arguments (reads, deleterange)
-	RowObj int    // object id of the row read/written
+	OpKind string         // insert|update|save|delete|deleterange|get|has|list
+	Keys   []Val          // key arguments (reads, deleterange)
+	RowObj int            // object id of the row read/written
 	Row    map[string]Val // snapshot of the row's columns at write time
 	Old    *OldRow
 	ErrID  int
